@@ -685,6 +685,8 @@ def universe(tier):
             cfg = ['aff', 16, hx(K16), hx(IV16), pad]; add('hist', 'CBC', cfg, mode_alpha('CBC', cfg))
     cfg = ['rot', 8, hx(K8), hx(IV8)]; add('hist', 'CTR', cfg, mode_alpha('CTR', cfg))
     cfg = ['aff', 16, hx(K16), '-']; add('hist', 'CTR', cfg, mode_alpha('CTR', cfg))
+    # counter whose low half wraps during the very first call (the high half must be the same in every later call)
+    cfg = ['rot', 8, hx(K8), hx(msg(4, 57) + b'\xff\xff\xff\xfe')]; add('hist', 'CTR', cfg, mode_alpha('CTR', cfg))
     cfg = ['rot', 8, hx(K8), 'nopadding']; add('hist', 'CTS_ECB', cfg, mode_alpha('CTS_ECB', cfg))
     cfg = ['aff', 16, hx(K16), hx(IV16), 'nopadding']; add('hist', 'CTS_CBC', cfg, mode_alpha('CTS_CBC', cfg))
     cfg = ['AES', 16, hx(K16), 'pkcs7']; add('hist', 'ECB', cfg, mode_alpha('ECB', cfg))
